@@ -532,25 +532,19 @@ def run_rawsig(case) -> CaseResult:
                         '%s signature' % alg, 'ref-sig-rejected:' + alg)
 
     # 3. every single-byte edit of the blob
-    for base, who in ((sig, 'own'), (rsig, 'ref')):
-        if who == 'ref' and base == sig:
-            continue
+    regions = sig_regions(sig)
 
-        regions = sig_regions(base)
-
-        for pos in range(len(base)):
-            mask = mask_at(pos, ma, mb)
-            must_be_false(pub.verify(msg, xor_at(base, pos, mask)),
-                          'sig-edit-accepted',
-                          '%s signature verifies after byte %d ^= 0x%02x '
-                          '(region %s)' % (alg, pos, mask, regions[pos]),
-                          'sig-edit:%s:%s' % (kt, regions[pos]))
+    for pos in range(len(sig)):
+        mask = mask_at(pos, ma, mb)
+        must_be_false(pub.verify(msg, xor_at(sig, pos, mask)),
+                      'sig-edit-accepted',
+                      '%s signature verifies after byte %d ^= 0x%02x '
+                      '(region %s)' % (alg, pos, mask, regions[pos]),
+                      'sig-edit:%s:%s' % (kt, regions[pos]))
 
     labels.add('byte-edits')
 
-    # all 255 masks at a few generated positions
-    regions = sig_regions(sig)
-
+    # all 255 masks at a generated position
     for p in case['full_pos']:
         pos = p % len(sig)
 
@@ -676,7 +670,7 @@ def rawsig_strategy(tier: str):
         return {'kt': kt, 'seed': draw(st.integers(0, NSEEDS - 1)),
                 'alg': alg, 'msg': msg,
                 'mask': [draw(st.integers(0, 254)), draw(st.integers(0, 254))],
-                'full_pos': draw(st.lists(st.integers(0, 2000), max_size=2)),
+                'full_pos': draw(st.lists(st.integers(0, 2000), max_size=1)),
                 'msg_pos': draw(st.lists(st.integers(0, 2000), min_size=1,
                                          max_size=4)),
                 'extra': draw(st.integers(0, 255))}
@@ -1197,7 +1191,7 @@ def run_cert_model(case) -> CaseResult:
 
     # contents changed after signing / signed by someone else
     if exp is not False and case['builder'] == 'ref':
-        for how in case['tampers']:
+        for how in TAMPERS:
             bad = tampered(spec, how)
 
             if bad is None:
@@ -1336,9 +1330,7 @@ def cert_model_strategy(tier: str):
                                             max_size=2)),
                 'nows': draw(st.lists(st.one_of(
                     st.sampled_from(TIMES), st.integers(0, MAXU64),
-                    st.floats(0, 4e9, allow_nan=False)), max_size=3)),
-                'tampers': draw(st.lists(st.sampled_from(TAMPERS),
-                                         unique=True, max_size=4))}
+                    st.floats(0, 4e9, allow_nan=False)), max_size=3))}
 
     return build()
 
@@ -2427,7 +2419,7 @@ def keygen_cert_strategy(tier: str):
 
 FAMILIES = [
     Family('rawsig', run_rawsig, strategy=rawsig_strategy,
-           budget={'quick': 260, 'thorough': 10000},
+           budget={'quick': 260, 'thorough': 8000},
            required={'all': ['kt:' + k for k in KTS] +
                      ['alg:' + a for a in RSA_SIG] +
                      ['alias-swap', 'msg-empty', 'msg-long', 'byte-edits',
@@ -2445,7 +2437,7 @@ FAMILIES = [
                              'tamper:other-ca-signs'] +
                      ['ca:' + k for k in KTS]}),
     Family('cert-edit', run_cert_edit, strategy=cert_edit_strategy,
-           budget={'quick': 64, 'thorough': 2000},
+           budget={'quick': 64, 'thorough': 1600},
            shards={'quick': 4, 'thorough': 16},
            required={'all': ['edit:sig', 'edit:ca', 'edit:pubkey',
                              'edit:type', 'edit:va', 'edit:vb',
